@@ -52,8 +52,10 @@ structure Acc where
   mism : Option (Nat × String) := none
   flags : List String := []
 
-/-- search pruning: within a cycle (after GC) assignments only grow and normal only turns into
-    in-transfer, so a partial plan can lead to the observed request bodies only if it is below them -/
+/-- search pruning: within a cycle (after GC) no stage removes a key from a shard's plan, so a
+    partial plan can lead to the observed request bodies only if its keys are among theirs
+    (states are not monotone: a move onto a shard that still holds the target in transfer
+    overwrites that entry with a normal one) -/
 def viableFor (inp : Input) (ob : Obs) (c : CS) : Bool :=
   ob.crashed ||
   (c.shards.zipIdx).all fun (s, i) =>
@@ -64,20 +66,18 @@ def viableFor (inp : Input) (ob : Obs) (c : CS) : Bool :=
         | some p => ((Spec.reported p).filter fun q => inp.active.contains q.1).map fun q => (q.1, q.2.state)
         | none => []
     (planned inp.active s).all fun q =>
-      match body.find? (·.1 == q.1) with
-      | some (_, bs) => q.2.state != .inTransfer || bs == .inTransfer
-      | none => false
+      (body.find? (·.1 == q.1)).isSome
 
 def reportsOf (w : World) : List (AL St) := w.running.map statusOf
 
-def stepAcc (env : Env) (a : Acc) (x : Nat × ROp × (Nat × List SC.Obs)) : Acc :=
+def stepAcc (prune : Bool) (env : Env) (a : Acc) (x : Nat × ROp × (Nat × List SC.Obs)) : Acc :=
   let (i, rop, (n, obs)) := x
   let fail (a : Acc) (why : String) : Acc := if a.mism.isNone then { a with mism := some (i, why) } else a
   let a := match rop with
     | .plain op => { a with w := Loop.step Coord.swrFloat env a.w op }
     | .cycle faults sf ob =>
       let inp := inputOf env a.w faults sf
-      let scheds := Coord.candidatesScheds Coord.swrFloat inp (viableFor inp ob)
+      let scheds := Coord.candidatesScheds Coord.swrFloat inp (if prune then viableFor inp ob else fun _ => true)
       let obc := Coord.canonObs ob
       let hit := scheds.find? fun sc => Coord.canonObs (Obs.ofOutcome (cycle Coord.swrFloat sc inp)) == obc
       let sc := match hit with | some sc => sc | none => scheds.headD {}
@@ -103,7 +103,7 @@ def stepAcc (env : Env) (a : Acc) (x : Nat × ROp × (Nat × List SC.Obs)) : Acc
     fail a s!"shard:{match k with | some k => toString k | none => "count"}:{detail}"
   else a
 
-def handle (line : String) : String :=
+def handleWith (prune : Bool) (line : String) : String :=
   match parseInts line with
   | .error e => s!"bad-op {e}"
   | .ok toks =>
@@ -122,8 +122,11 @@ def handle (line : String) : String :=
       let w0 : World := { shards := List.replicate replicas freshShard, replicas, active, explore }
       let a0 : Acc := { w := w0 }
       let a0 := if worldObs env w0 != (ob0.1, ob0.2.map Sidecar.sortObs) then { a0 with mism := some (0, "init") } else a0
-      let a := (ops.zipIdx).foldl (fun a ((op, ob), i) => stepAcc env a (i + 1, op, ob)) a0
+      let a := (ops.zipIdx).foldl (fun a ((op, ob), i) => stepAcc prune env a (i + 1, op, ob)) a0
       let finalConv := Loop.converged env.opt a.w.active a.w.explore (reportsOf a.w)
       s!"case {id} match={match a.mism with | none => "1" | some (i, why) => s!"0@{i}:{why}"} final={if finalConv then 1 else 0} cycles {",".intercalate a.flags}"
+
+def handle := handleWith true
+def handleNoPrune := handleWith false
 
 end Kvass.Driver.Loop
